@@ -788,6 +788,29 @@ class Interp:
         mod = cls.__module__ or ''
         if not (mod == 'fim' or mod.startswith('fim.')):
             raise Unsupported(f'instantiation of unmodelled class {mod}.{cls.__qualname__}')
+        import dataclasses
+        init0, _ = self.class_lookup(cls, '__init__')
+        if dataclasses.is_dataclass(cls) and isinstance(init0, types.FunctionType) and init0.__code__.co_filename == '<string>':
+            # dataclass-generated __init__: fields are assigned in declaration order
+            obj = PObj(cls)
+            flds = [f for f in dataclasses.fields(cls) if f.init]
+            vals = dict(zip([f.name for f in flds], args))
+            if len(args) > len(flds):
+                self.raise_(TypeError, 'too many positional arguments')
+            for k, v in kwargs.items():
+                if k in vals or k not in [f.name for f in flds]:
+                    self.raise_(TypeError, f'unexpected or repeated argument {k}')
+                vals[k] = v
+            for f in flds:
+                if f.name not in vals:
+                    if f.default is not dataclasses.MISSING:
+                        vals[f.name] = self.lift(f.default)
+                    elif f.default_factory is not dataclasses.MISSING:
+                        vals[f.name] = self.call(f.default_factory, [], {})
+                    else:
+                        self.raise_(TypeError, f'missing argument {f.name}')
+                self.dict_set(obj.d, f.name, vals[f.name])
+            return obj
         if inspect.isabstract(cls):
             self.raise_(TypeError, f"Can't instantiate abstract class {cls.__name__}")
         new, _ = self.class_lookup(cls, '__new__')
@@ -968,7 +991,10 @@ class Interp:
             if ctx.guards:
                 if target.id not in frame.locals:
                     raise CannotConvert()
-                val = ite_value(ctx.guard(), val, frame.locals[target.id])
+                try:
+                    val = ite_value(ctx.guard(), val, frame.locals[target.id])
+                except Unsupported:
+                    raise CannotConvert()
             frame.locals[target.id] = val
         elif isinstance(target, ast.Attribute):
             obj = self.eval(target.value, frame)
